@@ -26,6 +26,20 @@ fn components() -> serde_json::Value {
     })
 }
 
+/// When this engine contributes one leg of a property (`--partial <file>`), another engine
+/// merges and reports: dump what this leg covered and found instead of printing a verdict.
+fn dump_partial(opts: &Opts, rep: &Report) -> Option<i32> {
+    let path = opts.get("partial")?;
+    let v = json!({
+        "evaluations": rep.evaluations, "distinct": rep.distinct.iter().collect::<Vec<_>>(), "faults": rep.faults.to_json(), "probes": rep.probes.to_json(),
+        "samples": rep.samples, "rule": rep.rule, "extra": rep.extra, "wall_s": rep.elapsed(),
+        "violations": rep.violations.iter().map(|v| json!({"class": v.class, "summary": v.summary, "subseed": v.subseed, "replay": v.replay})).collect::<Vec<_>>(),
+    });
+    write_json(std::path::Path::new(path), &v);
+    println!("{} library leg: evaluations={} violations={} -> {path}", opts.property, rep.evaluations, rep.violations.len());
+    Some(0)
+}
+
 fn drive_c02_c03(opts: &Opts) -> i32 {
     let prop = opts.property.clone();
     let rule = if prop == "C02" {
@@ -96,6 +110,9 @@ fn drive_c02_c03(opts: &Opts) -> i32 {
         "binary detection is off (C14 owns it)".into(),
         "seeded sampling: a clean batch is evidence, not proof".into(),
     ];
+    if let Some(code) = dump_partial(opts, &rep) {
+        return code;
+    }
     rep.finish()
 }
 
@@ -152,16 +169,8 @@ fn drive_simple(opts: &Opts, level: &str, label: &str, cases: u64, rule: &str, f
     rep.extra.insert("generated_cases".into(), json!(cases));
     rep.extra.insert("exhaustive_within_case".into(), json!(true));
     rep.assumptions = vec!["crash points are enumerated exhaustively within each generated case; cases themselves are sampled from the seed".into()];
-    if let Some(path) = opts.get("partial") {
-        // this engine contributes one leg of a property; another engine merges and reports
-        let v = json!({
-            "evaluations": rep.evaluations, "distinct": rep.distinct.iter().collect::<Vec<_>>(), "faults": rep.faults.to_json(), "probes": rep.probes.to_json(),
-            "samples": rep.samples, "rule": rep.rule, "extra": rep.extra, "wall_s": rep.elapsed(),
-            "violations": rep.violations.iter().map(|v| json!({"class": v.class, "summary": v.summary, "subseed": v.subseed, "replay": v.replay})).collect::<Vec<_>>(),
-        });
-        write_json(std::path::Path::new(path), &v);
-        println!("{} library leg: evaluations={} violations={} -> {path}", opts.property, rep.evaluations, rep.violations.len());
-        return 0;
+    if let Some(code) = dump_partial(opts, &rep) {
+        return code;
     }
     rep.finish()
 }
